@@ -10,8 +10,78 @@ use star_test_utils::AggregationServer;
 use std::collections::BTreeMap;
 
 /// `vh agg-replay --lines F --seed S --scale K --pools 1,2,4`
+/// populations made (almost) only of groups EXACTLY at the threshold: N groups of t reports, a few
+/// single reports, nothing else — expectation straight from the property (Aggregator!Expected:
+/// every group with >= t reports, each once, with exactly its associated data)
+fn flood(a: &Args, rep: &mut Report) {
+  let n = a.u64("flood", 80) as usize;
+  let seed = a.u64("seed", 1);
+  let mut rng = rng_from(seed, 1919);
+  for t in [1u32, 2, 3, 4, 8] {
+    for singles in [0usize, 3] {
+      let ngroups = n + (t as usize) * 7;
+      let mut msgs: Vec<Message> = Vec::new();
+      let mut want: BTreeMap<Vec<u8>, Vec<Vec<u8>>> = BTreeMap::new();
+      for gi in 0..ngroups + singles {
+        let m: Vec<u8> = format!("flood {t} {singles} {gi}").into_bytes();
+        let mg = MessageGenerator::new(SingleMeasurement::new(&m), t, b"flood");
+        let mut rnd = [0u8; 32];
+        mg.sample_local_randomness(&mut rnd);
+        let size = if gi < ngroups { t as usize } else { (t as usize).saturating_sub(1).max(1).min(t as usize - (t > 1) as usize) };
+        let mut auxes: Vec<Vec<u8>> = Vec::new();
+        for i in 0..size {
+          let aux = vec![(gi % 251) as u8, (gi / 251) as u8, i as u8, 0x44];
+          auxes.push(aux.clone());
+          if let Guard::Done(Ok(msg)) = guard(|| Message::generate(&mg, &rnd, Some(AssociatedData::new(&aux)))) {
+            msgs.push(msg);
+          }
+        }
+        if size >= t as usize {
+          auxes.sort();
+          want.insert(m, auxes);
+        }
+      }
+      msgs.shuffle(&mut rng);
+      for pool in [1usize, 4, 16] {
+        let agg = AggregationServer::new(t, "flood");
+        let tp = rayon::ThreadPoolBuilder::new().num_threads(pool).build().expect("pool");
+        rep.evaluations += 1;
+        let ctx = json!({"population": "exact-threshold flood", "threshold": t, "groups": ngroups, "single_reports": singles, "reports": msgs.len(), "pool": pool});
+        let outs = match guard(|| tp.install(|| agg.retrieve_outputs(&msgs))) {
+          Guard::Done(o) => o,
+          Guard::Panic(m) => {
+            rep.violation("C18", "AggregationServer::retrieve_outputs", "panic", format!("retrieve_outputs panicked: {m:.120}"), ctx);
+            continue;
+          }
+        };
+        let mut got: BTreeMap<Vec<u8>, Vec<Vec<u8>>> = BTreeMap::new();
+        let mut dup = false;
+        for o in outs {
+          let mut auxes: Vec<Vec<u8>> = o.aux.iter().map(|a| a.as_ref().map(|x| x.as_vec()).unwrap_or_default()).collect();
+          auxes.sort();
+          dup |= got.insert(o.x.as_vec(), auxes).is_some();
+        }
+        if got != want || dup {
+          let missing = want.keys().filter(|k| !got.contains_key(*k)).count();
+          let extra = got.keys().filter(|k| !want.contains_key(*k)).count();
+          rep.violation("C18", "AggregationServer::retrieve_outputs",
+            if extra > 0 { "below-threshold-revealed" } else if missing > 0 { "measurement-missing" } else { "aux-multiset-differs" },
+            format!("flood of groups exactly at the threshold: {missing} of {} measurements missing, {extra} unexpected, duplicates={dup}", want.len()), ctx);
+        } else {
+          rep.nontrivial(format!("flood:{t}:{singles}:{pool}"));
+        }
+      }
+    }
+  }
+  rep.traces += 1;
+}
+
 pub fn replay(a: &Args) -> Report {
   let mut rep = Report::new("agg-replay");
+  if a.get("flood").is_some() {
+    flood(a, &mut rep);
+    return rep;
+  }
   let seed = a.u64("seed", 1);
   let scale = a.u64("scale", 3) as usize;
   let pools: Vec<usize> = a.str("pools", "1,2,3,4,8,16").split(',').filter_map(|s| s.parse().ok()).collect();
@@ -44,6 +114,30 @@ pub fn replay(a: &Args) -> Report {
         }
         auxes.sort();
         want.insert(m, auxes);
+      }
+    }
+    // a flood of groups EXACTLY at the threshold (a frequent-items pre-filter sized for "more than
+    // len/k" instead of "at least t" drops precisely these), next to a few single reports
+    if scale <= 5 && li % 2 == 1 {
+      let ngroups = 70 + 10 * (li % 3);
+      for gi in 0..ngroups {
+        let m: Vec<u8> = format!("flood {li} {gi}").into_bytes();
+        let mg = MessageGenerator::new(SingleMeasurement::new(&m), t, epoch.as_bytes());
+        let mut rnd = [0u8; 32];
+        mg.sample_local_randomness(&mut rnd);
+        let n = if gi % 23 == 22 { 1 } else { (t as usize).max(1) };
+        let mut auxes: Vec<Vec<u8>> = Vec::new();
+        for i in 0..n {
+          let aux = vec![gi as u8, i as u8, 0x33];
+          auxes.push(aux.clone());
+          if let Guard::Done(Ok(msg)) = guard(|| Message::generate(&mg, &rnd, Some(AssociatedData::new(&aux)))) {
+            msgs.push(msg);
+          }
+        }
+        if n >= t as usize && n > 0 {
+          auxes.sort();
+          want.insert(m, auxes);
+        }
       }
     }
     // payload shapes (once per configuration, at the small scale): short measurements next to
